@@ -15,7 +15,7 @@ OLD = "# precious previous content\nclass Keep:\n    x: int = 1\n"
 TARGET = "/vfs/out/models.py"
 
 FILE_FAULTS = ["missing", "malformed", "lookup_missing_key", "lookup_scalar", "non_object_sample", "scalar_root",
-               "non_string_key"]
+               "non_string_key", "reused_file_lookup_missing_key", "reused_file_lookup_scalar"]
 ARG_FAULTS = ["bad_merge", "bad_merge_arg", "custom_without_generator", "generator_without_custom", "bad_structure",
               "bad_framework", "bad_input_format", "no_file_arg", "bad_max_literals", "bad_custom_generator_path"]
 STEP_FAULTS = ["generate", "merge_models", "generate_names", "compose", "codegen"]
@@ -82,7 +82,7 @@ def scen_faults(ch, params, out):
     if family == "file":
         kinds = [k for k in FILE_FAULTS if not (
             (k in ("non_object_sample", "scalar_root") and fmt == "ini") or (k == "non_string_key" and fmt != "yaml")
-            or (k.startswith("lookup") and not wrap))]
+            or ("lookup" in k and not wrap))]
         file_fault = (ch.choose("file_fault", kinds), ch.pick("pos", nfiles))
         faults.append(file_fault[0])
         if multi and nfiles > 1 and ch.flag("second_fault"):
@@ -104,6 +104,11 @@ def scen_faults(ch, params, out):
             fs[path] = _faulty_doc(fmt, kind, split[i], wrap)
         else:
             fs[path] = _doc(fmt, split[i], wrap)
+        if kind in ("reused_file_lookup_missing_key", "reused_file_lookup_scalar"):
+            # the same file is named twice: a good lookup first, then a faulty one (a cache keyed by path would hide it)
+            fs[path] = _doc(fmt, split[i], wrap)
+            argv += ["-m", "Model", "data.items", path, "-m", "Model", "data.nope" if kind.endswith("missing_key") else "data.count", path]
+            continue
         argv += ["-m", "Model", lookup, path] if (wrap or ch.flag(f"explicit_dash{i}")) else ["-m", "Model", path]
     argv += ["-i", fmt, "-f", framework]
     if family == "arg":
